@@ -220,6 +220,18 @@ def check_json(ctx, algs, kid, payload, general):
             o2 = json.loads(json.dumps(obj))
             o2["signatures"][1]["signature"] = o2["signatures"][0]["signature"]
             yield "spliced-signature", o2, vkid
+        # an entry lifted from another valid JWS (with that JWS's own payload member) under a different top-level payload
+        try:
+            other = jws.serialize_json(headers[0], b"another payload", R.material(kid, "key"))
+            entry = {"protected": other["protected"], "signature": other["signature"], "payload": other["payload"]}
+            if general:
+                yield "entry-of-other-jws-with-own-payload", {"payload": obj["payload"], "signatures": [entry]}, vkid
+                o2 = json.loads(json.dumps(obj))
+                o2["signatures"].append(entry)
+                yield "appended-entry-of-other-jws", o2, vkid
+            yield "other-jws-original", dict(other), vkid
+        except Exception:  # noqa: BLE001
+            pass
 
     for lab, o2, k in variants():
         real = real_deserialize_json(jws, o2, R.material(k, "key"))
